@@ -106,6 +106,9 @@ def expected(compilers, argv0, args):
             if a.startswith(f) and f in ("-D", "-I") and len(a) > len(f) and a not in flagmap and a.split("=")[0] not in flagmap:
                 flag, val = f, a[len(f):]
                 break
+            if a.startswith(f) and f in ("-isystem", "-include") and len(a) > len(f) and a[len(f)] != "-" and a not in flagmap:
+                flag, val = f, a[len(f):]        # value attached to the flag
+                break
         if flag:
             if val is not None:
                 (sys_paths if flag == "-isystem" else cmd[COMMON[flag]]).append(val)
